@@ -1397,6 +1397,12 @@ handshake_login(int dns_fd, int seed)
 
 		if (read > 0) {
 			int netmask;
+
+			/* sscanf() below needs a terminated string */
+			if (read >= (int) sizeof(in))
+				read = sizeof(in) - 1;
+			in[read] = 0;
+
 			if (strncmp("LNAK", in, 4) == 0) {
 				fprintf(stderr, "Bad password\n");
 				return 1;
